@@ -123,6 +123,33 @@ def run_case(stream, seed, ctx, params):
         d = P.probe_deck(mn, ps, tr=m, trnum=7)
         d.trs[7] = (m, {'star': False, 'cls': cls})
         return run_deck(ctx, stream, d, [], rng, npts=250, extra_sig={'mnemonic': mn, 'rot': cls})
+    if stream == 'mixed' and rng.random() < 0.2:
+        # two cards of one mnemonic whose parameters differ in one place only, by a pair of values that are easily
+        # confused (-1 / -2 have the same hash in CPython, 0.0 / -0.0 are equal, 1 / 1.0 …): each card its own surface
+        kind = rng.choice(['px', 'py', 'pz', 'p', 's', 'sx', 'sz', 'c/x', 'c/z', 'cz', 'so', 'k/z', 'gq', 'sq'])
+        mn, ps = (P.sq_card(rng) if kind == 'sq' else G.elementary(rng, [kind]))
+        ps = [float(x) for x in ps]
+        a, b = rng.choice([(-1.0, -2.0), (-2.0, -1.0), (-1.0, -2.0), (-2.0, -1.0), (1.0, 2.0), (-1.0, 1.0), (0.5, 1.5)])
+        j = rng.randrange(len(ps))
+        if mn in ('so', 'cz', 's', 'sx', 'sz', 'c/x', 'c/z') and j == len(ps) - 1:
+            a, b = abs(a), abs(b)            # a radius
+            if a == b:
+                a, b = 1.0, 2.0
+        if mn == 'k/z' and j == 3:
+            a, b = 1.0, 2.0                  # t squared
+        ps1, ps2 = list(ps), list(ps)
+        ps1[j], ps2[j] = a, b
+        d = D.Deck()
+        i1, i2 = rng.sample(range(1, 30), 2)
+        d.surfs = [D.Surf(i1, mn, ps1), D.Surf(i2, mn, ps2)]
+        cid = iter(rng.sample(range(1, 40), 4))
+        d.cells = [D.Cell(next(cid), ('i', ('s', -i1), ('s', -i2)), mat=1, rho='-1.0'),
+                   D.Cell(next(cid), ('i', ('s', -i1), ('s', i2)), mat=2, rho='-2.0'),
+                   D.Cell(next(cid), ('i', ('s', i1), ('s', -i2)), mat=1, rho='-3.0'),
+                   D.Cell(next(cid), ('i', ('s', i1), ('s', i2)), mat=0, imp=rng.choice([0, 1]))]
+        d.mats = {1: [('13027', '1.0')], 2: [('26056', '-0.9'), ('6012', '-0.1')]}
+        return run_deck(ctx, stream, d, ['--skip-deduplication'] if rng.random() < 0.3 else [], rng, npts=200,
+                        known_classes=_known)
     if stream == 'mixed':
         # a third of the decks put surfaces on TR cards: the general TRIPOLI-4 types (PLANE, CYL, CONE, tilted tori) are
         # only emitted for surfaces whose frame is oblique
